@@ -134,3 +134,19 @@ Theorem C02_map_residue_refuted_witness :
                          ∧ x ≠ y ∧ x' ≠ y' ∧ x = x' ∧ y = y'.
 Proof. exact map_T3_residue_refuted. Qed.
 Print Assumptions C02_map_residue_refuted_witness.
+
+From Crdt Require Import model.Map spec.System spec.OrswotSpec spec.OrswotSystem spec.MapSpec spec.MapSystem proofs.OrswotSystem proofs.MapKeys.
+
+(** Map, key level (any nested value type): merge is commutative, associative, idempotent,
+    equals learning the union of the two knowledge sets, and is the Orswot merge of the key layers *)
+Theorem C02_map_keys_merge_laws {V O E} (vo : valops V O E) (H : list (oprec (mop O))) :
+  owfH (habs H) ->
+  forall (s1 : cmap V) (K1 : gset nat) (s2 : cmap V) (K2 : gset nat) (s3 : cmap V) (K3 : gset nat),
+    mapreach vo H s1 K1 -> mapreach vo H s2 K2 -> mapreach vo H s3 K3 ->
+    kabs (mmerge vo s1 s2) = kabs (mmerge vo s2 s1)
+    /\ kabs (mmerge vo (mmerge vo s1 s2) s3) = kabs (mmerge vo s1 (mmerge vo s2 s3))
+    /\ kabs (mmerge vo s1 s1) = kabs s1
+    /\ kabs (mmerge vo s1 s2) = ospec (habs H) (K1 ∪ K2)
+    /\ kabs (mmerge vo s1 s2) = omerge (kabs s1) (kabs s2).
+Proof. exact (map_keys_merge_laws vo H). Qed.
+Print Assumptions C02_map_keys_merge_laws.
